@@ -83,10 +83,12 @@ def rigid_case(chk, e):
             chk.violation({"kind": "kinematics", "grid": k3}, f"{type(grid).__name__} (case {e['cs']}): {er}", {"case": e["cs"], "error": er})
 
 
-def rod_case(chk, e):
+def rod_case(chk, e, dim2=False):
     kind = e["cs"]["kind"]
+    if not dim2 and kind in ("rod_elem", "rod_nodal"):
+        rod_case(chk, e, dim2=True)             # the 2-D variants of these grids
     rod = bodies.make_rod(e)
-    grid, D = bodies.make_rod_grid(kind, rod, e)
+    grid, D = bodies.make_rod_grid(kind, rod, e, dim2)
     grid.compute_lag_grid_position_field()
     grid.compute_lag_grid_velocity_field()
     errs = []
